@@ -150,7 +150,7 @@ func (c *c15) genCase(o *OracleEnv, rng *mon.Rand, ts int64) c15Case {
 		return r
 	}
 	kinds := []string{"honest-all", "subset-at-quorum", "subset-below", "duplicated-vote", "two-votes-one-validator", "forged-signature", "signature-by-other", "wrong-chain-id", "wrong-height", "wrong-round",
-		"unknown-validators", "non-commit-flags-with-extension", "non-commit-flags-no-extension", "missing-pairs", "undecodable-prices", "empty-extensions", "garbage-bytes", "height-below-host-set", "not-an-executor", "missing-signature", "oversized-price"}
+		"unknown-validators", "non-commit-flags-with-extension", "non-commit-flags-no-extension", "missing-pairs", "undecodable-prices", "empty-extensions", "garbage-bytes", "height-below-host-set", "not-an-executor", "missing-signature", "oversized-price", "forged-override"}
 	cs.kind = mon.Pick(rng, kinds)
 	switch cs.kind {
 	case "honest-all":
@@ -253,6 +253,14 @@ func (c *c15) genCase(o *OracleEnv, rng *mon.Rand, ts int64) c15Case {
 		for _, i := range rest(below) {
 			cs.specs = append(cs.specs, voteSpec{Val: i, Flag: cmtproto.BlockIDFlagCommit, Prices: map[string]*big.Int{}, Sig: sigValid})
 		}
+	case "forged-override":
+		// a genuine signed quorum, followed by unsigned entries for the same validators (non-commit flags) carrying
+		// other prices: if those entries reach the aggregator they replace the signed ones
+		cs.specs = commitVotes(above, prices)
+		forged := pricesAt(7, ts+5)
+		for _, i := range above {
+			cs.specs = append(cs.specs, voteSpec{Val: i, Flag: mon.Pick(rng, []cmtproto.BlockIDFlag{cmtproto.BlockIDFlagUnknown, cmtproto.BlockIDFlagAbsent, cmtproto.BlockIDFlagNil}), Prices: forged, Sig: sigMissing})
+		}
 	case "garbage-bytes":
 		cs.raw = rng.Bytes(1 + rng.Intn(200))
 	case "height-below-host-set":
@@ -321,7 +329,25 @@ func (c *c15) deliver(o *OracleEnv, cs c15Case, vecName string, oracleEnabled bo
 	run.Check("C15.only_successful_update_changes_prices", res.Class == sim.OK, "c15.change_without_success", tr, "prices changed although the message failed")
 	run.Check("C15.sender_is_executor_and_oracle_enabled", isExec && oracleEnabled, "c15.unauthorized_update", tr, "prices changed by sender executor=%v with oracle enabled=%v", isExec, oracleEnabled)
 	run.Check("C15.height_not_older_than_host_set", int64(cs.height) >= hostH, "c15.old_height", tr, "prices changed by an update at height %d, recorded host set is of height %d", cs.height, hostH)
+	signedPrices := map[string]map[string]bool{}
+	for _, sp := range cs.specs {
+		if sp.Val < 0 || sp.Flag != cmtproto.BlockIDFlagCommit || sp.Sig != sigValid || sp.NoExtension {
+			continue
+		}
+		for pair, v := range sp.Prices {
+			if signedPrices[pair] == nil {
+				signedPrices[pair] = map[string]bool{}
+			}
+			signedPrices[pair][v.String()] = true
+		}
+	}
 	for _, pair := range changed {
+		if pair != tsPair {
+			run.Check("C15.price_comes_from_a_signed_vote", signedPrices[pair][after[pair].Price], "c15.unsigned_price."+cs.kind, tr, "%s became %s, a value no validly signed commit vote supplied (attack kind %s)", pair, after[pair].Price, cs.kind)
+		}
+		if signedPrices[tsPair] != nil || true {
+			run.Check("C15.timestamp_comes_from_a_signed_vote", signedPrices[tsPair][fmt.Sprint(after[pair].TsNs)], "c15.unsigned_timestamp."+cs.kind, tr, "%s timestamp became %d, a value no validly signed commit vote supplied", pair, after[pair].TsNs)
+		}
 		pw := powerOf(o, q[pair])
 		run.Check("C15.changed_pair_has_two_thirds_quorum", pw*3 >= total*2, "c15.quorum."+cs.kind, tr, "%s changed with qualifying power %d of %d (< 2/3); attack kind %s", pair, pw, total, cs.kind)
 		if before[pair].Set {
@@ -334,6 +360,7 @@ func (c *c15) deliver(o *OracleEnv, cs c15Case, vecName string, oracleEnabled bo
 func checkC15(run *mon.Run, rng *mon.Rand, thorough bool) {
 	run.Rule = "adversarial extended-commit generator against the real UpdateOracle path (connect codecs, ValidateVoteExtensions, vote-weighted median, oracle keeper): 21 attack kinds (honest, subsets just below / at 2/3, duplicated votes, two votes by one validator, forged / foreign / wrong chain-height-round / missing signatures, unknown validators with huge claimed power, non-commit flags with and without extension, missing pairs, undecodable and oversized prices, empty extensions, garbage bytes, old height, non-executor) x 9 power vectors around the 2/3 line, in sequences with equal / older / newer timestamps, oracle flag toggled, and host-set refreshes with lower / equal / higher heights and right / wrong / empty client ids. The qualifying power per changed pair is computed from the harness's own knowledge of every key. Distinct non-trivial = (attack kind, power vector, outcome, would-reach-quorum-if-counted)"
 	run.Assumptions = []string{"necessary-condition direction only (the code's threshold 0.667 is stricter than 2/3)", "connect's codecs and ed25519 are trusted to build the adversarial commits"}
+	run.Declare("C15.price_comes_from_a_signed_vote", 10)
 	for _, c := range []string{"C15.changed_pair_has_two_thirds_quorum", "C15.timestamp_strictly_increases", "C15.sender_is_executor_and_oracle_enabled", "C15.height_not_older_than_host_set", "C15.accepted_update_observed",
 		"C15.insufficient_update_changes_nothing", "C15.host_set_only_replaced_by_higher_height_from_client"} {
 		run.Declare(c, 10)
@@ -376,8 +403,24 @@ func checkC15(run *mon.Run, rng *mon.Rand, thorough bool) {
 					if res.Class != sim.OK {
 						enabled = !enabled
 					}
-				default:
+				case x < 93:
 					c.hostRefresh(o, rr, &log)
+				default:
+					// a host-set refresh and an update executed on a branch that is then discarded (failed tx / simulation):
+					// nothing of it may influence later updates
+					br := o.Branch()
+					tiny := make([]int64, len(o.Host))
+					for i := range tiny {
+						tiny[i] = 1
+					}
+					br.Host = newHostVals(tiny, 9000+i)
+					_ = br.L2.K.UpdateHostValidatorSet(br.L2.Ctx, br.ClientID, br.HostHeight+1, cmtValSet(br.Host[:1+len(tiny)/3]))
+					br.Host = br.Host[:1+len(tiny)/3]
+					br.HostHeight++
+					sc := &c15{run: scratchRun()}
+					var slog []string
+					sc.deliver(br, c15Case{kind: "honest-all", specs: br.HonestSpecs(pricesAt(5, ts+1)), height: uint64(br.HostHeight) + 1, sender: br.Executors[0]}, vn, enabled, &slog)
+					log = append(log, "speculative host-set refresh + update on a discarded branch")
 				}
 			}
 			if r == 0 && vn == names[0] {
